@@ -228,7 +228,7 @@ func runC07(r *Report) {
 					}
 				}
 				hits := WalkFrom(cc.Blocks[0], nil, func(in ssa.Instruction) int {
-					if n.via(in) {
+					if OrDeferred(n.via)(in) {
 						return Stop
 					}
 					if in == ssa.Instruction(ret) {
